@@ -88,6 +88,25 @@ def via_color(value, bg=None):
     return []
 
 
+def _named_rgb():
+    return {nm: (int(v[1:3], 16), int(v[3:5], 16), int(v[5:7], 16)) for nm, v in refs._named().items()}
+
+
+def bg_spellings(bg, k):
+    """an opaque background colour written in the k-th of its equivalent CSS Color 3 spellings (the property's own
+    equivalences: tuple/list of ints, #rrggbb / rrggbb in any case, #rgb / rgb when the digits pair up, rgb(), the keyword)"""
+    r, g, b = bg
+    h6 = "%02x%02x%02x" % bg
+    sp = [tuple(bg), list(bg), "#" + h6, h6.upper(), f"rgb({r}, {g}, {b})", f"RGB({r},{g},{b})"]
+    if all(c % 17 == 0 for c in bg):
+        h3 = "".join(HEX[c // 17] for c in bg)
+        sp += ["#" + h3, h3 if h3 not in refs._named() else "#" + h3.upper(), h3.upper() if h3.upper().lower() not in refs._named() else "#" + h3]
+    names = [nm for nm, v in sorted(_named_rgb().items()) if v == tuple(bg)]
+    for nm in names:
+        sp += [nm, nm.upper(), " " + nm.capitalize() + " "]
+    return sp[k % len(sp)]
+
+
 def both(value, k, bg=None):
     """alternate between the two observation points named by the property"""
     return via_color(value, bg) if k % 3 == 2 else parse(value, bg)
@@ -229,6 +248,37 @@ def events(t, rnd):
             evs.append({"k": "hsla", "h": h, "s": s10, "l": l10, "an": an, "ad": 1000, "bg": list(bg),
                         "obs": both(hg, n, bg_arg), "txt": hg, "bgarg": repr(bg_arg)})
             evs.append({"k": "rgba", "v": list(c), "an": an, "ad": 1000, "bg": list(bg), "obs": both(tup, n, bg_arg),
+                        "txt": repr(tup), "bgarg": repr(bg_arg)})
+            n += 1
+    # ---- translucent text over a background given in each of its equivalent spellings (keywords incl. the three-letter
+    #      ones, #rgb / rgb, rrggbb without '#', rgb(), list): the composite must not depend on how the background is written
+    named = sorted(_named_rgb().items())
+    short = [nm for nm, _v in named if len(nm) <= 4]
+    for j in range(300 if t == "quick" else 6000):
+        an = rnd.choice([250, 500, 750, rnd.randrange(1, 1000)])
+        a_txt = ("%.3f" % (an / 1000)).rstrip("0")
+        pick = j % 4
+        if pick == 0:
+            bg = _named_rgb()[rnd.choice(short)]
+        elif pick == 1:
+            bg = tuple(rnd.choice(named)[1])
+        elif pick == 2:
+            bg = tuple(17 * rnd.randrange(16) for _ in range(3))
+        else:
+            bg = (rnd.randrange(256), rnd.randrange(256), rnd.randrange(256))
+        c = (rnd.randrange(256), rnd.randrange(256), rnd.randrange(256))
+        h, s10, l10 = rnd.randrange(360), rnd.randrange(1001), rnd.randrange(1001)
+        rg = fn_variant("rgba", [str(x) for x in c] + [a_txt], n)
+        hg = fn_variant("hsla", [str(h), tenths(s10) + "%", tenths(l10) + "%", a_txt], n)
+        tup = (c[0], c[1], c[2], an / 1000)
+        nsp = 6 + (3 if all(x % 17 == 0 for x in bg) else 0) + 3 * sum(1 for _nm, v in named if tuple(v) == bg)
+        for k in (range(nsp) if j % 5 == 0 or t != "quick" else [rnd.randrange(nsp), rnd.randrange(nsp)]):
+            bg_arg = bg_spellings(bg, k)
+            evs.append({"k": "rgba", "v": list(c), "an": an, "ad": 1000, "bg": list(bg), "obs": parse(rg, bg_arg),
+                        "txt": rg, "bgarg": repr(bg_arg)})
+            evs.append({"k": "hsla", "h": h, "s": s10, "l": l10, "an": an, "ad": 1000, "bg": list(bg),
+                        "obs": parse(hg, bg_arg), "txt": hg, "bgarg": repr(bg_arg)})
+            evs.append({"k": "rgba", "v": list(c), "an": an, "ad": 1000, "bg": list(bg), "obs": parse(tup, bg_arg),
                         "txt": repr(tup), "bgarg": repr(bg_arg)})
             n += 1
     # ---- calibration of the harness' own CSS reader against the same definition
